@@ -19,7 +19,10 @@ CHECKS = {
             "Generated worlds (1-4 graphs with cycles, self-loops, parallel edges, negative/zero weights, unknown relations, tags; "
             "texts biased to seed labels; T1 config surface incl. caps 0/1/tight/loose, slice caps, perf caps) checked against a "
             "reference propagator written from the documented rule (ids and all six counters exactly), per-graph budget and "
-            "reachability predicates, decomposition over graphs, purity and store immutability. Bounded by case count and graph size (<=8 nodes).",
+            "reachability predicates, decomposition over graphs, purity and store immutability; multi-call sequences on one state (repeated "
+            "identical calls with several seeded graphs and cache hits, configs / slice caps / active lists changing between calls, graph "
+            "edits through every store API), the perf.parallel.t1 fan-out incl. > 10 graphs, and real orchestrator turns whose t1.jsonl "
+            "record is compared with the reference under the scheduler-derived caps. Bounded by case count and graph size (<=8 nodes).",
             "Trusted: harness/models/t1.py (documented rule); exact differential only when perf caps are off.",
             "DESIGN.md §3 C12"),
     "C01": ("exploration",
